@@ -269,11 +269,23 @@ def run_convert(ck, hb, bdir, rng, n, stats):
     if tool is None:
         ck.notes.append("om_matrix_convert not found in the scratch build"); return 0
     jobs = []
-    for t in range(n):
+    def sniffed_as_text(o, f1):
+        """auto-detection (the tool gives no input format) offers a binary file to the text reader first when its
+        first bytes look like a number: first dimension byte in '+-.0-9'"""
+        return f1 == 0 and (obj_dims(o)[0] & 0xff) in (43, 45, 46) + tuple(range(48, 58))
+    t = 0
+    while len(jobs) < n:
         kind = rng.randint(0, 3)
         f1 = rng.choice([0, 0, 1, 3]); f2 = rng.choice([0, 1, 3])
         o = gen_obj(rng, kind, nonfinite=False, big=False)
-        jobs.append((o, f1, f2, t))
+        if sniffed_as_text(o, f1): continue
+        jobs.append((o, f1, f2, t)); t += 1
+    # fixed witnesses: a binary file whose first byte is a digit is offered to the text reader by auto-detection
+    w = lex.d2w
+    jobs.append(([0, 48] + [w(float(k)) for k in range(48)], 0, 0, t)); t += 1
+    jobs.append(([1, 49, 2] + [w(0.0)] * 98, 0, 1, t)); t += 1
+    jobs.append(([1, 0, 3], 0, 0, t)); t += 1
+    jobs.append(([1, 3, 0], 3, 0, t)); t += 1
     sl = ["c07 6 %d %s %d" % (f1, " ".join(map(str, o)), 1000 + t) for (o, f1, f2, t) in jobs]
     rc, io, err = core.run_harness(hb, sl, ck.workdir, tag="cv1")
     ran = []
